@@ -223,6 +223,7 @@ Proof.
        | H : context [if ?b then _ else _] |- _ => destruct b eqn:?
        | |- context [if ?b then _ else _] => destruct b eqn:?
        end; cbn [In app] in *.
-  all: try solve [intuition (try discriminate; try congruence; eauto)].
+  all: try tauto.
+  all: try solve [timeout 5 intuition (try discriminate; try congruence; eauto)].
   all: show.
 Admitted.
